@@ -251,6 +251,10 @@ def run(ctx):
     ctx.rule("R10.F", "everything a reload (re)loads is also started: start_global_contexts, given the same argument, selects every context load_scripts loaded", floor=10)
     started_table(ctx, program, "R10.F")
 
+    ctx.rule("R10.G", "the context of a file being loaded already carries its file path and source while the code runs (names of relative imports depend on it)", floor=1)
+    from .c09 import load_file_identity_rule
+    load_file_identity_rule(ctx, program, "R10.G")
+
     ctx.rule("R10.D", "discovery: load paths cover top level, scripts/**, configured apps and modules; '#' files are skipped; apps need configuration", floor=4)
     lp = None
     for n in body_walk(f):
